@@ -88,6 +88,11 @@ def full_W1(tier):
         T("P", ["A01", "B01"], "P", ["B01", "A01"], [30, 7.5]),
         T("Q", ["A01", "B01"], "Q", ["B01", "C01"], [7.5, 7.5]),
         T("P", ["A01"], "Q", ["A01"], [30], label="named step"),
+        T("P", ["A01", "B01"], "P", ["A02", "A01"], [120, 30]),  # A01 is split and refilled from B01 in between
+        T("P", ["A02", "B02"], "P", ["B02", "A03"], [70, 70], partition_by="source"),
+        T("Q", ["A01", "B01"], "Q", ["C01", "A01"], [70, 7.5]),
+        T("P", "A01", "Q", "B01", [7.5, 30]),  # one source, one destination, several volumes
+        T("T", "B01", "P", ["A03"], [7.5, 7.5, 30]),
         T("T", ["A01", "B01", "C01"], "Q", ["A01", "B01", "C01"], [120, 70, 120], label="lvh"),
         T("P", ["A01"], "Q", ["A01"], [30], liquid_class="Water", tip=3, rack_id="id1", rack_type="t96"),
         A("P", {"$w2d": ["P", 0, 2, 0, 2]}, {"$a": [[1.5, 2.5], [3.5, 4.5]]}),
@@ -276,6 +281,10 @@ def inexact_events():
         R("T", 0, "Q", ["A01", "B01"], 0.1),
         R("T", 1, "Q", ["A01"], 33.335),
         T("Q", ["A01"], "P", ["A03"], [0.045]),
+        T("P", ["B02"], "Q", ["B02"], [12.348]),
+        T("P", ["A03", "B03"], "Q", ["C01", "C02"], [{"$hex": (200 / 3).hex()}, 0.009]),
+        A("P", ["A02"], 12.348),
+        D("Q", ["C02"], {"$hex": (200 / 3).hex()}),
     ]
 
 
